@@ -655,7 +655,10 @@ class Export(Definition):
         self.ref = ref
 
     def to_string(self):
-        return f'(export "{self.name}" ({self.kind} {self.ref!s}))'
+        from .text.util import name2string
+
+        name = name2string(self.name)
+        return f'(export "{name}" ({self.kind} {self.ref!s}))'
 
 
 class Start(Definition):
